@@ -228,7 +228,23 @@ def gen_padded(rng, tier, idx):
     a_cross = rng.random() < 0.5
     a = txn("a", ids_a, a_cross)
     b = txn("b", ids_b, not a_cross)
-    rename = directed and rng.random() < 0.25
+    noval = directed and rng.random() < 0.12
+    if noval:
+        # documents WITHOUT a value: the not-indexed sets of all indexes are contended - one transaction gives a
+        # value to a document that had none, the other adds a new value-less document (the smallest value-less
+        # docid stays untouched, BTrees refuses to merge a deleted first key) - seeded C19_J rebound a copy
+        none = ["-", "-", "-", "-", "-"]
+        d0 = min(live)
+        pa = [d for d in ids_a if d != d0] or ids_a
+        pb = [d for d in ids_b if d != d0] or ids_b
+        for d in (d0, pa[0]):
+            cmds.insert(len(cmds) - 1, ["base", k[0], "index", d] + none)
+            k[0] += 1
+        a = [("a", "reindex", pa[0], list(hot))]
+        b = [("b", "index", pb[0], list(none))]
+        if rng.random() < 0.5 and len(pb) > 1:
+            b.append(("b", "index", pb[1], list(none)))
+    rename = directed and not noval and rng.random() < 0.25
     if rename:
         # "rename": one document is the sole holder of a value / keyword / facet / words; one transaction moves
         # it to a fresh one while the other gives a second document the old one (seeded C19_H re-keyed the
